@@ -2,6 +2,7 @@
 // KeyManager, crypto, codecs) driven by a single driver fiber against reference models.
 // Clock, entropy and files are the simulated ones. Properties: C01 C02 C05 (Node level).
 #include "worlds/common.hpp"
+#include "worlds/swarm_variant.hpp"
 
 using namespace wl;
 
@@ -230,6 +231,7 @@ Scenario make_c01() {
     s.exec = exec_c01;
     s.kernel_knobs = [](const Plan&) { sk::Knobs k; k.preempt_per_1024 = 0; return k; };
     s.quick_runs = 40000; s.thorough_runs = 3000000; s.quick_secs = 40; s.thorough_secs = 600;
+    add_swarm_variant(s, 100);
     return s;
 }
 Registrar reg_c01(make_c01);
